@@ -356,6 +356,38 @@ impl Runner {
                 if bad { out.push(b("GARBAGE")); }
                 (newop, out)
             }
+            b"BIG" => {
+                // [BIG c t key seed size count]: SET key <size-byte pattern>, then count GETs and a PING in ONE
+                // write; the client starts reading only after 60 ms and then reads everything: the replies
+                // exceed what the socket takes in one write, so the server's flush sees partial writes and a
+                // full socket.  Bulk replies are reported as (length, 32-bit checksum).
+                let c = tok_int(&op[1]);
+                let mut newop = op.to_vec(); newop[2] = Tok::I(self.logical);
+                let key = tok_bytes(&op[3]).to_vec();
+                let (seed, size, count) = (tok_int(&op[4]), tok_int(&op[5]), tok_int(&op[6]));
+                let val: Vec<u8> = (0..size).map(|k| ((k * 7 + k / 251 + seed).rem_euclid(256)) as u8).collect();
+                let cl = match self.conns.get_mut(&c) { Some(x) => x, None => return (newop, vec![b("CLOSED")]) };
+                let mut w = vec![]; V::cmd(&[b"SET", &key, &val]).wire(&mut w);
+                for _ in 0..count { V::cmd(&[b"GET", &key]).wire(&mut w); }
+                V::cmd(&[b"PING"]).wire(&mut w);
+                if !cl.send(&w) { return (newop, vec![b("CLOSED")]); }
+                std::thread::sleep(Duration::from_millis(60));
+                let mut out = vec![];
+                for _ in 0..(count + 2) {
+                    match cl.read(8000) {
+                        Rd::Val(V::Bulk(v)) => {
+                            let mut h: u64 = 5381;
+                            for x in &v { h = (h * 33 + (*x as u64)) & 0xFFFF_FFFF; }
+                            out.push(i(3)); out.push(i(v.len() as i128)); out.push(i(h as i128));
+                        }
+                        Rd::Val(v) => canon(v).enc(&mut out),
+                        Rd::Timeout => { out.push(b("TIMEOUT")); break; }
+                        Rd::Closed => { out.push(b("CLOSED")); break; }
+                        Rd::Bad => { out.push(b("GARBAGE")); break; }
+                    }
+                }
+                (newop, out)
+            }
             _ => (op.to_vec(), vec![b("BADOP")]),
         }
     }
